@@ -80,6 +80,56 @@ def obsTask (t : Task) : Obs :=
 def ObsEq (g g' : Graph) : Prop :=
   (∀ id, (g.find? id).map obsTask = (g'.find? id).map obsTask) ∧ (∀ e, e ∈ g.deps ↔ e ∈ g'.deps)
 
+
+/-! ### the manual's meaning of ready / blocked (C08), over a graph with unique ids -/
+def closedSt (s : St) : Prop := s = .done ∨ s = .canceled
+
+def ReadySpec (g : Graph) (t : Task) : Prop :=
+  t.st = .todo ∧ t.claimedBy = "" ∧
+  (∀ d, (t.id, d) ∈ g.deps → ∀ o ∈ g.tasks, o.id = d → closedSt o.st) ∧
+  (t.epicId ≠ "" → ∀ e, (t.epicId, e) ∈ g.deps → ∀ ep ∈ g.tasks, ep.id = e → ep.isEpic = true →
+      ∀ c ∈ g.tasks, c.epicId = e → closedSt c.st)
+
+def BlockedSpec (g : Graph) (t : Task) : Prop :=
+  t.st = .blocked ∨ (t.st = .todo ∧ t.claimedBy = "" ∧ ¬ ReadySpec g t)
+
+/-- `t` (a live item) cannot be ready before `u` is closed: own dependency, or inherited through its epic -/
+def WaitsFor (g : Graph) (t u : Task) : Prop :=
+  t ∈ g.tasks ∧ u ∈ g.tasks ∧
+  ((t.id, u.id) ∈ g.deps ∨
+   (t.epicId ≠ "" ∧ ∃ ep ∈ g.tasks, ep.isEpic = true ∧ (t.epicId, ep.id) ∈ g.deps ∧ u.epicId = ep.id))
+
+/-- a non-empty chain of waits -/
+inductive WaitChain (g : Graph) : Task → Task → Prop where
+  | single {a b : Task} : WaitsFor g a b → WaitChain g a b
+  | cons {a b c : Task} : WaitsFor g a b → WaitChain g b c → WaitChain g a c
+
+def WaitsAcyclic (g : Graph) : Prop := ∀ t, ¬ WaitChain g t t
+
+/-! ### what compaction needs of a graph (C05): every graph a CLI history with a monotone clock produces satisfies it -/
+def maxTimes (l : List Time) : Time := l.foldl maxTime 0
+
+structure TaskOK (t : Task) : Prop where
+  /-- `updated_at` is the latest of creation, the last change of each kind, and the results -/
+  updated : t.updatedAt = maxTimes ([t.createdAt, t.lastTitle, t.lastBody, t.lastEpic, t.lastState] ++ t.results.map (·.time))
+  /-- todo/done/canceled items are unclaimed (replay clears the claimant on those states) -/
+  cleared : t.st.clearsClaim = true → t.claimedBy = ""
+  /-- a claimant always has a claim time -/
+  claimTime : t.claimedBy ≠ "" → t.lastClaim ≠ 0
+  /-- epics are never re-parented -/
+  epicFixed : t.isEpic = true → t.epicId = t.cEpic
+  /-- the recorded creation values are the real ones -/
+  cStSet : t.cSt ≠ .other ""
+  /-- replay has already given every item a non-blank title -/
+  titled : Text.isBlank t.title = false
+  /-- a field that never had an update event still has its creation value -/
+  titleKept : t.lastTitle = 0 → t.title = (if t.cTitle != "" then t.cTitle else t.title)
+  created_pos : t.createdAt ≠ 0
+
+structure GraphOK (g : Graph) : Prop where
+  wf : WF g
+  tasks : ∀ t ∈ g.tasks, TaskOK t
+
 /-! ### reachability through the CLI -/
 /-- logs produced from the empty store by any sequence of (modelled) commands, any environment -/
 inductive Reach : List Event → Prop where
